@@ -6,6 +6,7 @@ import PdshVerif.Pcp.SessionLemmas
 import PdshVerif.Pcp.PacedTree
 import PdshVerif.Pcp.Refused
 import PdshVerif.Pcp.Mixed
+import PdshVerif.Pcp.MeetsSpec
 
 /-! # C11  pdcp/rpdcp reproduce the source tree exactly on every target
 
@@ -22,6 +23,9 @@ write faults (`o.fsize = none`).  Times are in microseconds, the resolution of t
                         directory in which those names are not yet present, and every reply is a positive
                         acknowledgement.  By mutual structural induction on trees (`feed_tree`,
                         `feed_kids`) on top of the record-level lemmas `feed_T/C/D/E`.
+* `copy_meets_spec`  -- model refines spec: the file system `copy_roundtrip` describes passes `Spec.checkKids` -- the very
+                        function the check's oracle evaluates on the real destination -- without a discrepancy (names,
+                        structure, bytes; with -p modes and microsecond times), for the pair as repaired.
 * `file_any_size`    -- the single-file case spelled out at the byte level: record + data + NUL, any
                         length (0, 1, ..., beyond several BUFSIZ blocks: `foldl_data` = blocks_concat).
 * `received_file`, `preserve_meta_file`
@@ -157,6 +161,28 @@ theorem copy_roundtrip (o : Opts) (hc : CntOk o) (hnf : o.fsize = none) (so : SO
   rcases hr with rfl | hr
   · rfl
   · exact h3.all_ack r hr
+
+/-- **The copy meets the specification** (model refines spec).  `Spec.checkKids` is the function the check's
+oracle evaluates on a snapshot of the REAL destination (`pdshmodel pcp spec11`): same kind, same bytes, for
+directories exactly the same entry names, recursively, and with -p the same twelve permission bits and the same
+modification time to the microsecond.  Under the hypotheses of `copy_roundtrip`, for the sender/receiver pair as
+repaired (`Faithful`: no write faults; with -p microseconds are sent and a created directory is chmod'ed), the
+file system the receiver ends with passes it WITHOUT A SINGLE DISCREPANCY, `listing` being the paths that exist
+afterwards.  (Mutual induction `check_tree`/`check_kids`, Pcp/MeetsSpec.lean.) -/
+theorem copy_meets_spec (o : Opts) (hc : CntOk o) (so : SOpts) (hp : so.preserve = o.preserve)
+    (hf : Faithful o so.subsec) (fs : FS) (D : Path) (srcs : List (Str × Tree)) (budget : Nat)
+    (hres : resolve fs o.cwd o.dest = some D) (hdir : fs.isDir D = true)
+    (hsrc : SrcsOk so srcs) (hb : o.dest.length + budget < PCP_PATH_MAX)
+    (hgood : GoodKids budget (namedSrcs so srcs))
+    (hfresh : ∀ n k, (n, k) ∈ namedSrcs so srcs → FreshBelow fs (D ++ [n]))
+    (listing : List Path) (hl : ∀ x, x ∈ listing ↔ (sink o fs (send so srcs)).1 x ≠ none) :
+    Spec.checkKids o.preserve (sink o fs (send so srcs)).1 listing D (namedSrcs so srcs) = [] := by
+  obtain ⟨h1, _⟩ := copy_roundtrip o hc hf.nofault so hp fs D srcs budget hres hdir hsrc hb hgood hfresh
+  apply check_kids o so.subsec hf (namedSrcs so srcs) budget fs D hgood hfresh
+  · intro n k _ x _
+    rw [h1]
+  · intro n k _ x _
+    exact hl x
 
 /-- **One file of any size** at the byte level (`feed_C` re-stated): at a record boundary in a
 directory, `C<mode> <size> <name>\n` + the bytes + NUL create exactly that file, with two
@@ -497,6 +523,18 @@ example :
       have h3 : x ≠ [[119], [100]] := by intro e; subst e; simp at hl
       simp [h1, h2, h3])
   refine ⟨h.1, h.2, by decide +kernel⟩
+
+/-- `copy_meets_spec` on the same instance with the repaired receiver: no discrepancy; and the specification is
+not trivially satisfied -- the sender as found (whole seconds) leaves the sub-second modification times of
+`t` and `t/e` behind (finding F11-MTIME-SUBSEC, fixed in /repo) -/
+example :
+    Spec.checkKids true (sink { xo with dirChmod := true } xfs (send xso xsrcs)).1
+      [[], [[119]], [[119], [100]], [[119], [100], [116]], [[119], [100], [116], [101]]] [[119], [100]]
+      (namedSrcs xso xsrcs) = [] ∧
+    Spec.checkKids true (sink { xo with dirChmod := true } xfs (send { xso with subsec := false } xsrcs)).1
+      [[], [[119]], [[119], [100]], [[119], [100], [116]], [[119], [100], [116], [101]]] [[119], [100]]
+      (namedSrcs xso xsrcs) = [([[119], [100], [116]], .mtime), ([[119], [100], [116], [101]], .mtime)] := by
+  refine ⟨by decide +kernel, by decide +kernel⟩
 
 /-! ## the hypotheses of `reverse_roundtrip` are satisfiable -/
 
